@@ -180,6 +180,8 @@ def check(run):
         # real concurrent processes
         process_family(run, rng, scratch, 2 if quick else 12)
         edge_values_family(run, scratch)
+        from jugverif import execchecks as _X
+        _X.loop_correspondence(run, drv)
         if drv is not None and run.corr_disagreements == 0:
             run.obligation('correspondence: %d loads of the real jug.init gave the task list and barrier flag of the model' % run.corr_programs, True)
     finally:
@@ -432,10 +434,13 @@ def edge_values_family(run, scratch):
     the value None is returned and loading goes on), and a task before a barrier whose result cannot be stored (execute reports the failure, nothing is
     published for it, the barrier stays closed, `jug check` says unfinished)"""
     common = ['--will-cite', '--nr-wait-cycles', '2', '--wait-cycle-time', '0']
-    for variant in ('none-value', 'unstorable-before-barrier'):
+    for variant in ('none-value', 'unstorable-before-barrier', 'failure-beside-phases'):
         d = os.path.join(scratch, 'edge-' + variant)
         os.makedirs(d)
         bad = '' if variant == 'none-value' else "u = unstorable(b)\nbarrier()\nmark('after-barrier')\nc = good(30)\n"
+        if variant == 'failure-beside-phases':
+            # a task that raises, and - independent of it - phases that open one after the other: with --keep-going every pass still runs what can run
+            bad = ("@TaskGenerator\ndef boom(x):\n    raise ValueError(x)\nz = boom(0)\nw = bvalue(b)\nmark('phase-2 %r' % (w,))\nc = good(w)\nw2 = bvalue(c)\nmark('phase-3 %r' % (w2,))\nd = good(w2)\n")
         open(os.path.join(d, 'jugfile.py'), 'w').write(EDGE_JUGFILE.replace('%(bad)s', bad))
         rp = {'kind': 'edge-values', 'variant': variant}
         run.case(('edge-values', variant), nontrivial=True)
@@ -447,6 +452,14 @@ def edge_values_family(run, scratch):
             marks = open(os.path.join(d, 'marks.log')).read().split('\n')
         except IOError:
             marks = []
+        if variant == 'failure-beside-phases':
+            if ex.returncode == 0:
+                run.fail('exit-zero-after-failure', '`jug execute --keep-going` exits 0 although a task raised: %s' % ex.stdout[-200:], rp)
+            if not any(m.startswith('phase-3 12') for m in marks):
+                run.fail('phases-not-completed-beside-failure', 'a jugfile with a task that raises and, independent of it, two bvalue() phases: after `jug execute --keep-going` (twice) the marks written are %s - '
+                         'the later phases (values 11, 12) were not reached although nothing they need depends on the failing task' % marks, rp)
+            core.rm_rf(d)
+            continue
         if variant == 'none-value':
             if ex.returncode != 0 or chk.returncode != 0:
                 run.fail('bvalue-of-none-stops', 'a jugfile with v = bvalue(t) where the finished task t has the value None: `jug execute` exits %d, a second one %d, `jug check` then %d (the '
